@@ -65,6 +65,9 @@ pub fn yield_with_io<T: EventSource>(resource: &T, is_coroutine: bool) {
         crate::io::thread::PROXY_CO_SENDER.with(|tx| {
             tx.send(es).unwrap();
         });
+        #[cfg(may_verif)]
+        crate::verif::thread::park();
+        #[cfg(not(may_verif))]
         std::thread::park();
     }
 }
@@ -85,6 +88,9 @@ pub fn get_co_para() -> Option<EventResult> {
 #[inline]
 pub fn yield_now() {
     if unlikely(!is_coroutine()) {
+        #[cfg(may_verif)]
+        return crate::verif::thread::yield_now();
+        #[cfg(not(may_verif))]
         return std::thread::yield_now();
     }
     let y = Yield {};
